@@ -400,6 +400,13 @@ func (db *DB) ReleaseRemoteHaltLock(ctx context.Context, lockID int64) (retErr e
 // This only removes the reference locally as it's assumed it has already been
 // removed on the primary.
 func (db *DB) UnsetRemoteHaltLock(ctx context.Context, lockID int64) (retErr error) {
+	return db.unsetRemoteHaltLock(ctx, lockID, false)
+}
+
+// unsetRemoteHaltLock implements UnsetRemoteHaltLock. If locked is true, the
+// caller already holds the database's write lock, which the recovery would
+// otherwise wait for indefinitely.
+func (db *DB) unsetRemoteHaltLock(ctx context.Context, lockID int64, locked bool) (retErr error) {
 	TraceLog.Printf("[UnsetRemoteHaltLock(%s)]:", db.name)
 
 	haltLock := db.remoteHaltLock.Load().(*HaltLock)
@@ -415,7 +422,11 @@ func (db *DB) UnsetRemoteHaltLock(ctx context.Context, lockID int64) (retErr err
 	}()
 
 	// Checkpoint when we release the remote lock.
-	if err := db.Recover(ctx); err != nil {
+	if locked {
+		if err := db.recover(ctx); err != nil {
+			return fmt.Errorf("recovery: %w", err)
+		}
+	} else if err := db.Recover(ctx); err != nil {
 		return fmt.Errorf("recovery: %w", err)
 	}
 
